@@ -45,9 +45,8 @@ theorem C18_newline_conventions (fs : List (Eol × List Char)) (h : ∀ p ∈ fs
 /-- **one laid-out file**: multi-line records, descriptions, blank lines, final line ends -/
 theorem C18_layout_parse_file (rs : List FastaRec) (hne : rs ≠ []) (h : ∀ r ∈ rs, RecOK r) :
     parseFasta [fastaFileText rs] = some (rs.map FastaRec.entry) := by
-  unfold parseFasta parseFastaFiles
-  simp only [List.map_cons, List.map_nil, joinWith]
-  rw [univNL_id _ (fastaFileText_no_cr rs h), splitRecords_file rs hne h]
+  unfold parseFasta
+  rw [parseFastaFiles_file rs hne h]
   exact sequenceOpt_records rs h
 
 /-- **all FASTA inputs**: any number (≥ 1) of laid-out files, each with its own newline
@@ -79,8 +78,8 @@ theorem C18_fasta_input_parse (fss : List (Eol × List FastaRec)) (hne : fss ≠
     simp only [List.map_map]
     apply List.map_congr_left
     intro p hp
-    simp only [Function.comp, parseFastaFiles, List.map_cons, List.map_nil, joinWith]
-    rw [univNL_id _ (fastaFileText_no_cr p.2 (hok p hp)), splitRecords_file p.2 (hfile p hp) (hok p hp)]
+    simp only [Function.comp]
+    exact parseFastaFiles_file p.2 (hfile p hp) (hok p hp)
   rw [e3, sequenceOpt_flatten_some parseProtein (fun p : Eol × List FastaRec => p.2.map FastaRec.body)
     (fun p => p.2.map FastaRec.entry) fss (fun p hp => sequenceOpt_records p.2 (hok p hp))]
   simp [List.flatMap, List.map_flatten, List.map_map, Function.comp_def]
